@@ -78,6 +78,17 @@ def element_gate(ctx):
                 return env["__own"]            # the element, in its own namespace, is on the list
             if left == "(namespaces['html'], name)":
                 return env["__html"]           # an HTML element of that name is on the list
+            # a local alias of one of the two keys: decided by its value
+            try:
+                lv = interp.eval_expr(node.left, env)
+            except Exception:       # noqa: BLE001
+                lv = None
+            tokv = env.get(st.params()[1]) or {}
+            if isinstance(lv, tuple) and len(lv) == 2 and lv[1] == tokv.get("name"):
+                if lv[0] == tokv.get("namespace"):
+                    return env["__own"]
+                if lv[0] == "http://www.w3.org/1999/xhtml":
+                    return env["__html"]
             raise AnalysisError("sanitize_token: membership test of unexpected shape `%s`" % t)
         return NotImplemented
     interp = MiniInterp(ce, st.module, guard_hook=guard_hook, expr_hook=expr_hook)
@@ -101,10 +112,14 @@ def element_gate(ctx):
                 else:
                     r.check("R9.1", val is tok or val == tok, key, st.where, "a %s token is altered or dropped" % ty)
     # the membership test covers (namespace, name) and the None-namespace HTML fallback only
-    tests = [n for n in ast.walk(st.node) if isinstance(n, ast.Compare) and "self.allowed_elements" in norm(n)]
+    tests = [n for n in ast.walk(st.node) if isinstance(n, ast.Compare) and "allowed_elements" in norm(n)]
     texts = sorted(norm(t) for t in tests)
-    r.check("R9.1", texts == ["(namespace, name) in self.allowed_elements", "(namespaces['html'], name) in self.allowed_elements"],
-            "membership-shape", st.where, "the element membership test changed shape: %s" % texts)
+    r.idiom("R9.1", texts == ["(namespace, name) in self.allowed_elements", "(namespaces['html'], name) in self.allowed_elements"],
+            "membership-shape", st.where, "the element membership test changed shape: %s" % texts,
+            wrong=[(any(isinstance(t.comparators[0], ast.Name) for t in tests),
+                    "sanitize_token looks an element up in the module-level default `allowed_elements` instead of the filter's own list: "
+                    "with a custom (narrower) element list -- and un-namespaced tokens, for the HTML fallback -- elements of the default "
+                    "list get through as real tags")])
     # disallowed_token: type := Characters and name deleted on every path
     dt = repo.func(REL, "Filter.disallowed_token")
     cfg = CFG(dt.node)
